@@ -182,6 +182,8 @@ func genHeader(r *rng.R, tag string) http.Header {
 			h[k] = []string{"https", "http"}
 		case 2:
 			h[k] = []string{""}
+		case 3:
+			h[k] = []string{"", "https"} // first field line empty, a later one is not
 		}
 	}
 	switch r.Intn(8) { // User-Agent: absent (most), empty, one, two
@@ -261,6 +263,7 @@ func scorpus(tag string) []sreq {
 		base(http.Header{"Proxy-Authorization": {"Basic Zm9vOmJhcg=="}, "Authorization": {"Bearer t"}, "Te": {"trailers"}}),
 		base(http.Header{"User-Agent": {""}}),
 		base(http.Header{"X-Forwarded-Proto": {"https"}, "X-Forwarded-Host": {"c.example"}, "X-Forwarded-Url": {"https://c.example/x"}}),
+		base(http.Header{"X-Forwarded-Proto": {"", "https"}, "X-Forwarded-Host": {"", "c.example"}}),
 		base(http.Header{"Content-Length": {"5", "6"}}),
 		base(http.Header{"Via": {"1.1 " + tag}}),
 		base(http.Header{"Connection": {"Via"}, "Via": {"1.1 " + tag}}),
@@ -364,7 +367,7 @@ func main() {
 		return
 	}
 
-	nStack := 1500
+	nStack := 900
 	if *tier == "thorough" {
 		nStack = 12000
 	}
